@@ -11,7 +11,10 @@
    Keys are natural numbers (64-bit items); `hash : Nat → Nat` is the full 64-bit value `fmix64(H()(key))` – the
    harness instantiates `H` with an explicit identity functor so that the driver can use `fmix64`.
 
-   Not modelled: the DRIFT_LIMIT exception (drift ≥ 1024, "only used for theoretical analysis") and the nested
+   DRIFT_LIMIT: `internal_adjust_or_insert` throws `logic_error` when the probe distance reaches DRIFT_LIMIT (1024;
+   possible only in tables of ≥ 2048 slots with ≥ 1023 colliding keys). `update` has then already added the weight to
+   `total_weight`; the map is untouched. Modelled by `throws2`/`replay2` (a merge or a deserialisation stops there).
+   Not modelled: the same limit inside `hash_delete` and inside `resize`, and the nested
    `resize_or_purge_if_needed` inside `resize` (it cannot fire: capacity(lg)+1 ≤ capacity(lg+1)). -/
 import DSModel.Fi.Abstract
 namespace DS.Fi
@@ -50,6 +53,10 @@ def probe (t : Tab) (k : Nat) : Nat → Nat → Nat → Nat × Nat × Bool
 def get (hash : Nat → Nat) (t : Tab) (k : Nat) : Nat :=
   let (idx, _, found) := t.probe k (hash k % t.size) 1 t.size
   if found then t.val idx else 0
+
+/-- does `internal_adjust_or_insert` hit the drift limit for key `k`? (the check follows every `drift++`) -/
+def hitsDriftLimit (T : Tun) (hash : Nat → Nat) (t : Tab) (k : Nat) : Bool :=
+  decide ((t.probe k (hash k % t.size) 1 t.size).2.1 ≥ T.driftLimit)
 
 /-- `internal_adjust_or_insert`; second component: a new key was inserted -/
 def internalAdjustOrInsert (hash : Nat → Nat) (t : Tab) (k v : Nat) : Tab × Bool :=
@@ -150,25 +157,38 @@ def update2 (T : Tun) (hash : Nat → Nat) (choose : List Nat → Nat) (s : St2)
   let (t', a) := s.tab.adjustOrInsert T hash choose k w
   ({ tab := t', offset := s.offset + a, total := s.total + w }, a)
 
-/-- replay of a list of counters; returns the L1 replay entries (with the purge amounts used) in reverse order -/
-def replay2 (T : Tun) (hash : Nat → Nat) (choose : List Nat → Nat) : St2 → List (Nat × Nat) → List (Ent Nat) → St2 × List (Ent Nat)
-  | s, [], log => (s, log)
+/-- `update` throws at the drift limit (after `total_weight += weight`) -/
+def throws2 (T : Tun) (hash : Nat → Nat) (s : St2) (k w : Nat) : Bool :=
+  w != 0 && s.tab.hitsDriftLimit T hash k
+
+/-- state after the exception: only the total weight has changed -/
+def afterThrow2 (s : St2) (w : Nat) : St2 := { s with total := s.total + w }
+
+/-- replay of a list of counters; returns the L1 replay entries (with the purge amounts used) in reverse order and
+    whether an update threw (the replay stops there) -/
+def replay2 (T : Tun) (hash : Nat → Nat) (choose : List Nat → Nat) :
+    St2 → List (Nat × Nat) → List (Ent Nat) → St2 × List (Ent Nat) × Bool
+  | s, [], log => (s, log, false)
   | s, (k, w) :: t, log =>
+    if throws2 T hash s k w then (afterThrow2 s w, log, true) else
     let (s', a) := update2 T hash choose s k w
     replay2 T hash choose s' t ((k, w, a) :: log)
 
-/-- `merge(other)`; also returns the replay list handed to the L1 model -/
-def merge2 (T : Tun) (hash : Nat → Nat) (choose : List Nat → Nat) (s o : St2) : St2 × List (Ent Nat) :=
-  if o.tab.numActive = 0 then (s, []) else
-  let (r, log) := replay2 T hash choose s (o.tab.iterOrder T) []
-  ({ r with offset := r.offset + o.offset, total := s.total + o.total }, log.reverse)
+/-- `merge(other)`; also returns the replay list handed to the L1 model and whether the merge threw half way
+    (then offset and total weight are NOT fixed up) -/
+def merge2 (T : Tun) (hash : Nat → Nat) (choose : List Nat → Nat) (s o : St2) : St2 × List (Ent Nat) × Bool :=
+  if o.tab.numActive = 0 then (s, [], false) else
+  let (r, log, threw) := replay2 T hash choose s (o.tab.iterOrder T) []
+  if threw then (r, log.reverse, true) else
+  ({ r with offset := r.offset + o.offset, total := s.total + o.total }, log.reverse, false)
 
-/-- serialize → deserialize: items in iterator order re-inserted into a fresh table (lgMax, lgCur) -/
-def roundtrip2 (T : Tun) (hash : Nat → Nat) (s : St2) : St2 :=
-  if s.tab.numActive = 0 then { tab := Tab.mk' s.tab.lgCur s.tab.lgMax, offset := 0, total := 0 } else
+/-- serialize → deserialize: items in iterator order re-inserted into a fresh table (lgMax, lgCur);
+    `none` = the deserialisation threw -/
+def roundtrip2 (T : Tun) (hash : Nat → Nat) (s : St2) : Option St2 :=
+  if s.tab.numActive = 0 then some { tab := Tab.mk' s.tab.lgCur s.tab.lgMax, offset := 0, total := 0 } else
   let fresh : St2 := { tab := Tab.mk' s.tab.lgCur s.tab.lgMax, offset := 0, total := 0 }
-  let (r, _) := replay2 T hash medianOf fresh (s.tab.iterOrder T) []
-  { r with offset := s.offset, total := s.total }
+  let (r, _, threw) := replay2 T hash medianOf fresh (s.tab.iterOrder T) []
+  if threw then none else some { r with offset := s.offset, total := s.total }
 
 /-- abstraction function L2 → L1 -/
 def abs2 (s : St2) : St Nat :=
